@@ -27,15 +27,15 @@ CHECKS = {
          "deterministic simulation: fail-after-k-emits enumeration against a reference of completed executions"),
  "C09": ("fault_enumeration", "crash/restart (JSON round trip of the state) at every message boundary of each generated history, in lock step with an in-memory twin; programs and histories are sampled", "§3 C09",
          "deterministic simulation: crash/restart at every message boundary, lock-step twin"),
- "C10": ("exploration", "polluter/probe executions of the real interpreter, sequential and interleaved at script ticks under the serial scheduler with the race monitor", "§3 C10",
+ "C10": ("exploration", "polluter/probe executions of the real interpreter (directly and through one shared compiled action with per-execution permanent bindings; with, with unencodable and without bindings), sequential and interleaved at script ticks under the serial scheduler with the race monitor", "§3 C10",
          "deterministic simulation: interleaved polluter/probe executions, race detector as monitor"),
- "C11": ("exploration", "script progress is simulated time (tick seam); deadlines and cancellations at every tick position; bounded-step liveness (0 further ticks after the deadline) and leak detection by bubble drain", "§3 C11",
+ "C11": ("exploration", "script progress is simulated time (tick seam); deadlines and cancellations at every tick position, in actions, in guards of error branches and in getters of returned objects; bounded-step liveness (at most one further tick after the interrupt) and leak detection by bubble drain and live-goroutine census", "§3 C11",
          "deterministic simulation: simulated clock driven by script ticks, cancellation at tick N, leak = bubble cannot drain"),
- "C12": ("exploration", "concurrent walkers and a spec swapper under the serial scheduler; race monitor; each result must equal its solo result under one version", "§3 C12",
+ "C12": ("exploration", "concurrent walkers (one of them with a context cancelled mid-way) and a spec updater (independent versions, or version B derived from the live one, edited and compiled while walks are in flight) under the serial scheduler; race monitor; each result must equal its solo result under one version", "§3 C12",
          "deterministic simulation: serial scheduler over concurrent walkers + swapper, race detector as monitor"),
- "C14": ("exploration", "recorder machines and a counting oracle over generated crews, routing targets and histories; sio single loop and mcrew with asynchronous re-injection under the scheduler", "§3 C14",
+ "C14": ("exploration", "recorder machines and a counting oracle over generated crews, routing targets and histories; sio single loop (direct, and through its own Loop with submitted messages whose processing fails at the end) and mcrew with asynchronous re-injection and failing state writes under the scheduler", "§3 C14",
          "deterministic simulation: recorder machines with a counting oracle under seeded schedules and map orders"),
- "C15": ("fault_enumeration", "shadow store folded from Result.Changed compared with the live crew after every message; crash/restart at every message boundary of each generated history with a rebuilt twin crew", "§3 C15",
+ "C15": ("fault_enumeration", "shadow store folded from Result.Changed compared with the live crew after every message; crash/restart at every message boundary of each generated history with a rebuilt twin crew; and a slow store folding results behind the crew's own Loop while timers fire and pipelined requests arrive, compared with the live crew at rest", "§3 C15",
          "deterministic simulation: shadow store + crash/restart at every boundary, twin crews"),
  "C16": ("fault_enumeration", "store-failure windows at every operation position (one client), plus concurrent clients under the serial scheduler checked with porcupine, plus both with the quiescent invariant memory == store", "§3 C16",
          "deterministic simulation: storage fault windows, seeded client interleavings, linearizability (porcupine)"),
@@ -43,7 +43,7 @@ CHECKS = {
          "deterministic simulation (seeded serial scheduler + simulated clock) with linearizability checking of recorded histories"),
  "C18": ("exploration", "conservation invariant on every stride of simulated histories with failing actions, rejecting guards and stub interpreter outcomes", "§3 C18",
          "deterministic simulation: conservation invariant over simulated histories with injected action faults"),
- "C19": ("exploration", "simulated child process with stream faults (duplicate, drop, reorder, delay, noise) and simulated timeouts; reference verdict in the strict direction", "§3 C19",
+ "C19": ("exploration", "simulated child process with stream faults (duplicate, drop, reorder, delay, noise, early exit), simulated timeouts and a context cancelled mid-session; reference verdict in the strict direction", "§3 C19",
          "deterministic simulation: simulated child process, stream faults and clock"),
 }
 
